@@ -85,7 +85,10 @@ static void tr_add (const char *fmt, ...) {
 	tr[trn] = 0;
 }
 
-static int should_fail (long idx) {
+static long n_injected;          /* allocation failures injected so far */
+static int should_fail_ (long idx);
+static int should_fail (long idx) { int r = should_fail_ (idx); if (r) n_injected++; return r; }
+static int should_fail_ (long idx) {
 	switch (f_mode) {
 	case 1: return idx == f_k;
 	case 2: return idx >= f_k;
@@ -637,6 +640,7 @@ static char c_dir_new (char **av) { int d = ai (av, 1), w = ai (av, 2), e = ai (
 	char path[512]; snprintf (path, sizeof path, "%s/%s", scratch, w == 0 ? "d/" : "no-such-dir");
 	PDir *r = p_dir_new (path, e_in (e)); e_out (e); if (!r) return 'F'; put (d, T_DIR, r); return 'S'; }
 static char c_dir_next (char **av) { int s = ai (av, 1), d = ai (av, 2), e = ai (av, 3); LIB (); NEED (s, T_DIR); EMPTY (d); ERRARG2 (e, d, s);
+	long inj0 = n_injected;
 	PDirEntry *r = p_dir_get_next_entry (S[s].p, e_in (e)); e_out (e);
 	if (!r) { if (S[s].a >= DIR_ENTRIES) return 'E'; S[s].a++; return 'F'; }
 	S[s].a++; put (d, T_DIRENT, r);
@@ -644,7 +648,10 @@ static char c_dir_next (char **av) { int s = ai (av, 1), d = ai (av, 2), e = ai 
 	char path[768]; struct stat sb; snprintf (path, sizeof path, "%s/d/%s", scratch, r->name);
 	PDirEntryType want = P_DIR_ENTRY_TYPE_OTHER;
 	if (stat (path, &sb) == 0) want = S_ISDIR (sb.st_mode) ? P_DIR_ENTRY_TYPE_DIR : (S_ISREG (sb.st_mode) ? P_DIR_ENTRY_TYPE_FILE : P_DIR_ENTRY_TYPE_OTHER);
-	return r->type == want ? 'S' : 'D'; }
+	/* an entry that is genuinely of type OTHER (the dangling link) looks like the degraded result: the
+	 * degraded case is then recognised by the injected failure itself */
+	if (r->type != want) return 'D';
+	return (want == P_DIR_ENTRY_TYPE_OTHER && n_injected != inj0) ? 'D' : 'S'; }
 static char c_dir_path (char **av) { int s = ai (av, 1), d = ai (av, 2); LIB (); NEED (s, T_DIR); EMPTY (d);
 	pchar *r = p_dir_get_path (S[s].p); if (!r) return 'F'; put (d, T_STR, r); return 'S'; }
 static char c_dir_rewind (char **av) { int d = ai (av, 1); LIB (); NEED (d, T_DIR); p_dir_rewind (S[d].p, NULL); S[d].a = 0; return 'S'; }
